@@ -85,6 +85,16 @@ def fnObj (id : String) (dims : Nat) (extra : Toks) : Option Obj :=
     guard (ts.isEmpty ∧ a.length = n ∧ data.length = n * n)
     let A := toRows n n data
     pure ⟨n, quadraticF a A, quadraticG a A⟩
+  | "maxquad" => do
+    -- `K n A(K*n*n) b(K*n)`
+    let (k, ts) ← pNat extra
+    let (c, ts) ← pNat ts
+    let (dataA, ts) ← pList pFloat ts
+    let (dataB, ts) ← pList pFloat ts
+    guard (ts.isEmpty ∧ c = n ∧ dataA.length = k * (n * n) ∧ dataB.length = k * n)
+    let As := (toRows (n * n) k dataA).map (toRows n n)
+    let bs := toRows n k dataB
+    pure ⟨n, maxquadF As bs, maxquadG As bs⟩
   | "geometric-optimization" => do
     let (a, ts) ← pList pFloat extra
     let (data, ts) ← pList pFloat ts
